@@ -2,44 +2,58 @@ package main
 
 import (
 	"fmt"
-	"math/rand"
 	"os"
-	"path/filepath"
-	"strconv"
-	"time"
 
 	"verif/harness/core"
 )
 
+var checks = map[string]func(*core.Ctx) int{
+	"C02": core.CheckC02,
+	"C04": core.CheckC04,
+	"C05": core.CheckC05,
+}
+
 func main() {
 	if len(os.Args) < 2 {
-		fmt.Println("usage: verif <cmd> ...")
+		fmt.Println("usage: verif check <ID> <quick|thorough> | verif check <ID> --replay <path> | verif child <job.json>")
 		os.Exit(2)
 	}
 	switch os.Args[1] {
-	case "exp-kv":
-		seed, _ := strconv.Atoi(os.Args[2])
-		dir, _ := os.MkdirTemp("", "verif-exp-")
-		defer os.RemoveAll(dir)
-		t := core.NewTracer()
-		t.NoData = true
-		t.Install()
-		ps := 1024
-		s := core.NewSession(filepath.Join(dir, "db"), core.Opts{PageSize: ps, InitialMmapSize: 1 << 26}, core.ProfileByName(ps, "half"), t)
-		if err := s.Open(true); err != nil {
-			panic(err)
+	case "child":
+		if err := core.RunJob(os.Args[2]); err != nil {
+			fmt.Fprintln(os.Stderr, "child:", err)
+			os.Exit(4)
 		}
-		rng := rand.New(rand.NewSource(int64(seed)))
-		s.RunRandom(rng, core.GenCfg{Keys: 12, Vals: 6, MaxDepth: 3, Readers: 2, Txs: 40, OpsPerTx: 8, PReopen: 0.1, ErrKeys: true, Cursors: true})
-		s.CloseAll()
-		tf := filepath.Join(dir, "trace.ndjson")
-		n, err := core.WriteNDJSON(tf, t.Snapshot(), core.KeepKV)
-		fmt.Println("events", n, err)
-		core.WriteNDJSON("/tmp/last-trace.ndjson", t.Snapshot(), core.KeepKV)
-		r, err := core.RunTLC(core.TLCJob{Module: "TraceKV", Config: "TraceKV.cfg", Files: map[string]string{"trace.ndjson": tf}, Timeout: 2 * time.Minute})
-		fmt.Println(err, r.OK, r.Rejected, r.Mismatch, r.Generated, r.Wall)
-		if !r.OK {
-			fmt.Println(core.Tail(r.Output, 40))
+	case "check":
+		if len(os.Args) < 4 {
+			fmt.Println("usage: verif check <ID> <quick|thorough|--replay path>")
+			os.Exit(2)
+		}
+		id := os.Args[2]
+		fn := checks[id]
+		if fn == nil {
+			fmt.Printf("no check registered for %s\n", id)
+			os.Exit(2)
+		}
+		tier := os.Args[3]
+		c := core.NewCtx(id, "quick")
+		if tier == "--replay" {
+			if len(os.Args) < 5 {
+				fmt.Println("missing replay path")
+				os.Exit(2)
+			}
+			c.Replay = os.Args[4]
+		} else if tier == "thorough" {
+			c.Tier = "thorough"
+		}
+		if t := os.Getenv("VERIF_TIER"); t == "thorough" && tier != "--replay" {
+			c.Tier = "thorough"
+		}
+		os.Exit(fn(c))
+	default:
+		if !core.RunExtra(os.Args[1:]) {
+			fmt.Println("unknown command", os.Args[1])
+			os.Exit(2)
 		}
 	}
 }
